@@ -146,6 +146,16 @@ mut("C15-last-sequence-skipped", ABS, "        for sequence in sequences:\n     
 mut("C15-ts-compare-numerator-only", REL, "if msg.numerator != current_ts_numerator or msg.denominator != current_ts_denominator:", "if msg.numerator != current_ts_numerator:", ["C15"])
 mut("C15-abs-wait-channel-break", ABS, "            if time > current_point_in_time:", "            if time > current_point_in_time + 1:", ["C15", "C04"])
 
+# C10
+mut("C10-padding-skipped", BAR, "            self.sequence.pad(int(", "            self.sequence.pad(0 * int(", ["C10"])
+mut("C10-uniformity-numerator-only", BAR, "if not all(msg.numerator == self.time_signature_numerator and msg.denominator == self.time_signature_denominator", "if not all(msg.numerator == self.time_signature_numerator", ["C10"])
+mut("C10-signature-at-end", BAR, "                                                   denominator=self.time_signature_denominator), index=0)", "                                                   denominator=self.time_signature_denominator), index=None)", ["C10"])
+mut("C10-too-many-check-dropped", BAR, "        if len(time_signatures) > 1:\n            raise BarException(\"Too many time signatures in a bar\")\n", "", [])
+mut("C10-old-signature-kept", BAR, "        self.sequence.overwrite_relative_messages([msg for msg in self.sequence.messages_rel() if\n                                                   msg.message_type != MessageType.TIME_SIGNATURE])\n", "", ["C10"])
+mut("C10-copy-shares-sequence", BAR, "cpy = self.__class__(self.sequence.copy(),", "cpy = self.__class__(self.sequence,", ["C10", "C16"])
+mut("C10-copy-drops-key", BAR, "self.time_signature_numerator, self.time_signature_denominator, self.key_signature)", "self.time_signature_numerator, self.time_signature_denominator)", ["C10", "C16"])
+mut("C10-capacity-ge", BAR, "if self.sequence.get_sequence_duration_relation() * PPQN > self.time_signature_numerator", "if self.sequence.get_sequence_duration_relation() * PPQN >= self.time_signature_numerator", ["C09"])
+
 
 def run(cmd, env):
     p = subprocess.run(cmd, cwd=ROOT, env=env, capture_output=True, text=True)
